@@ -119,6 +119,52 @@ theorem chunked_long_line_rejected (buf : Nat) (max : Option Nat) (cl : Int) (pr
   rw [he]
   exact iterChunked_scan_err buf max r' _ _ (scanLine_long buf sp ext rest r' hl hd' hlong)
 
+/-- **a rejected body stays rejected**: when an access to `Request.body` raised (parsing or size
+error, or a malformed Content-Length header), every later access on the same request raises the
+very same error and does not touch the stream again — what is left of a spent stream is never
+presented as a body (fix 93df45e). -/
+theorem rejected_stays_rejected (q q1 : Req) (e : Err) (h : q.body = (.error e, q1)) :
+    q1.body = (.error e, q1) := by
+  have hb := h
+  unfold Req.body at h
+  split at h
+  · rename_i e' q' hl
+    simp only [Prod.mk.injEq, Except.error.injEq] at h
+    obtain ⟨rfl, rfl⟩ := h
+    unfold Req.loadBody at hl
+    split at hl
+    · cases hl
+    · rename_i hcache
+      split at hl
+      · -- an error is already remembered: nothing changes
+        simp only [Prod.mk.injEq, Except.error.injEq] at hl
+        obtain ⟨-, rfl⟩ := hl
+        exact hb
+      · rename_i hnoerr
+        split at hl
+        · simp only [Prod.mk.injEq, Except.error.injEq] at hl
+          obtain ⟨-, rfl⟩ := hl
+          exact hb
+        · rename_i cl hcl
+          split at hl
+          · rename_i e2 r2 hbr
+            have hreq : isRequestError e2 = true := by
+              have h1 : (bodyRead q.cfg.memfile cl (isChunked q.teHeader) q.cfg.maxBody q.input).1 = .error e2 := by
+                rw [hbr]
+              cases hch : isChunked q.teHeader with
+              | true =>
+                rw [hch] at h1
+                rcases chunked_total _ _ _ _ _ h1 with rfl | rfl <;> rfl
+              | false =>
+                rw [hch] at h1
+                rw [cl_total _ _ _ _ _ h1]; rfl
+            rw [if_pos hreq] at hl
+            simp only [Prod.mk.injEq, Except.error.injEq] at hl
+            obtain ⟨rfl, rfl⟩ := hl
+            simp [Req.body, Req.loadBody, hcache]
+          · cases hl
+  · cases h
+
 /-- with the `errors_map` of the source both client errors of the body reader are answered 4xx -/
 theorem chunked_400 (e : Err) (h : e = .bodyParsingError ∨ e = .bodySizeError) :
     ∃ st, raise_ Ombott.Gen.errorsMap e "RequestError" = .http st ∧ 400 ≤ st ∧ st < 500 := by
